@@ -85,7 +85,7 @@ func norm(ts []scanx.Tok, dropBang bool) []scanx.Tok {
 			continue
 		}
 		if t.Kind == ";" && t.Lit == "\n" {
-			if dropBang && i > 0 && (ts[i-1].Kind == "!" || ts[i-1].Kind == "...") {
+			if dropBang && afterBang(ts, i) {
 				continue
 			}
 			t.Off = -1
@@ -93,6 +93,16 @@ func norm(ts []scanx.Tok, dropBang bool) []scanx.Tok {
 		out = append(out, t)
 	}
 	return out
+}
+
+// afterBang: the inserted semicolon ts[i] follows "!" or "..." (ILLEGAL tokens in between keep the
+// pending-semicolon flag in both scanners).
+func afterBang(ts []scanx.Tok, i int) bool {
+	j := i - 1
+	for j >= 0 && ts[j].Kind == "ILLEGAL" {
+		j--
+	}
+	return j >= 0 && (ts[j].Kind == "!" || ts[j].Kind == "...")
 }
 
 func diffKey(x, g []scanx.Tok) (string, int) {
@@ -104,8 +114,12 @@ func diffKey(x, g []scanx.Tok) (string, int) {
 		a, b := x[i], g[i]
 		if a != b {
 			key := "token:" + b.Kind + "→" + a.Kind
-			if b.Kind != ";" && a.Kind == ";" && a.Lit == "\n" && i > 0 {
-				key = "extra-semicolon-after:" + x[i-1].Kind
+			if !(b.Kind == ";" && b.Lit == "\n") && a.Kind == ";" && a.Lit == "\n" && i > 0 {
+				j := i - 1
+				for j > 0 && x[j].Kind == "ILLEGAL" {
+					j--
+				}
+				key = "extra-semicolon-after:" + x[j].Kind
 			} else if a.Kind == b.Kind && a.Lit == b.Lit {
 				key = "offset:" + a.Kind
 			} else if a.Kind == b.Kind {
@@ -151,7 +165,7 @@ func eval(k Case) (fs []*engine.Failure, excl bool) {
 			// is the placement of an inserted semicolon relative to comments also different?
 			var sx, sg []scanx.Tok
 			for i, t := range x.Toks {
-				if !(t.Kind == ";" && t.Lit == "\n" && i > 0 && (x.Toks[i-1].Kind == "!" || x.Toks[i-1].Kind == "...")) {
+				if !(t.Kind == ";" && t.Lit == "\n" && afterBang(x.Toks, i)) {
 					sx = append(sx, t)
 				}
 			}
